@@ -1,6 +1,7 @@
 package main
 
 import (
+	"verifharness/c01/bx"
 	"bytes"
 	"encoding/binary"
 	"fmt"
@@ -373,6 +374,14 @@ func harvestPool() [][]byte {
 				seen[string(bd)] = true
 				pool = append(pool, bd)
 			}
+		}
+	}
+	// hand-written minimal encodings of box types and shapes that the repository's test data lacks (QuickTime meta
+	// atom, both versions of the table boxes, ...): shared with the C01/C02 search
+	for _, bd := range bx.Seeds() {
+		if len(bd) <= 4096 && !seen[string(bd)] {
+			seen[string(bd)] = true
+			pool = append(pool, bd)
 		}
 	}
 	return pool
